@@ -99,9 +99,9 @@ def tsOf (cfg : Cfg) (ascOk : Bool) (m : VMeta) (f : Frame) : List TsFrame :=
     | [] => []
     | b :: _ => [.video ((b &&& 0x1f) = 5) (avcHeader cfg.tsAvcSkips79 m.sps m.pps f.payload) f.payload]
 
-theorem flvStep_up (cfg : Cfg) (c : VCodec) (hasAac : Bool) (m : VMeta) (s : FlvSt) (f : Frame)
+theorem flvStep_up (cfg : Cfg) (spsOk : Bytes → Bool) (c : VCodec) (hasAac : Bool) (m : VMeta) (s : FlvSt) (f : Frame)
     (ha : s.alive = true) (hd : s.headerDone = true) (hf : f.audio = false → f.payload ≠ []) :
-    flvStep cfg c hasAac m s f = (s, tagOf c hasAac f, .ok) := by
+    flvStep cfg spsOk c hasAac m s f = (s, tagOf c hasAac f, .ok) := by
   unfold flvStep tagOf
   simp only [ha, hd, Bool.not_true, Bool.false_eq_true, if_false, if_true]
   cases hau : f.audio with
@@ -111,15 +111,15 @@ theorem flvStep_up (cfg : Cfg) (c : VCodec) (hasAac : Bool) (m : VMeta) (s : Flv
     | nil => exact absurd hp (hf hau)
     | cons b bs => simp
 
-theorem feedFlv_up (cfg : Cfg) (c : VCodec) (hasAac : Bool) (m : VMeta) :
+theorem feedFlv_up (cfg : Cfg) (spsOk : Bytes → Bool) (c : VCodec) (hasAac : Bool) (m : VMeta) :
     ∀ (fs : List Frame) (s : FlvSt), s.alive = true → s.headerDone = true → VideoNonempty fs →
-      feedFlv cfg c hasAac m s fs = (s, fs.flatMap (tagOf c hasAac)) := by
+      feedFlv cfg spsOk c hasAac m s fs = (s, fs.flatMap (tagOf c hasAac)) := by
   intro fs
   induction fs with
   | nil => intro s _ _ _; rfl
   | cons f fs ih =>
     intro s ha hd h
-    simp only [feedFlv, flvStep_up cfg c hasAac m s f ha hd (h f (List.mem_cons_self ..)),
+    simp only [feedFlv, flvStep_up cfg spsOk c hasAac m s f ha hd (h f (List.mem_cons_self ..)),
       ih s ha hd (fun g hg => h g (List.mem_cons_of_mem _ hg)), List.flatMap_cons]
 
 theorem tsStep_up (cfg : Cfg) (hc : cfg.tsAacChecked = true) (ascOk : Bool) (m : VMeta) (s : TsSt) (f : Frame)
@@ -177,12 +177,12 @@ theorem step_frames (dc : Depack.Cfg) (cfg : Cfg) (spsOk : Bytes → Bool) (ascO
 
 theorem step_flv (dc : Depack.Cfg) (cfg : Cfg) (spsOk : Bytes → Bool) (ascOk hasTs : Bool) (s : St) (i : In) :
     (step dc cfg spsOk ascOk hasTs s i).1.flv
-      = (feedFlv cfg (demuxStep dc spsOk s.demux i).1.codec (demuxStep dc spsOk s.demux i).1.hasAac
+      = (feedFlv cfg spsOk (demuxStep dc spsOk s.demux i).1.codec (demuxStep dc spsOk s.demux i).1.hasAac
           (demuxStep dc spsOk s.demux i).1.v.vmeta s.flv (demuxStep dc spsOk s.demux i).2.1).1 := rfl
 
 theorem step_tags (dc : Depack.Cfg) (cfg : Cfg) (spsOk : Bytes → Bool) (ascOk hasTs : Bool) (s : St) (i : In) :
     (step dc cfg spsOk ascOk hasTs s i).2.2.1
-      = (feedFlv cfg (demuxStep dc spsOk s.demux i).1.codec (demuxStep dc spsOk s.demux i).1.hasAac
+      = (feedFlv cfg spsOk (demuxStep dc spsOk s.demux i).1.codec (demuxStep dc spsOk s.demux i).1.hasAac
           (demuxStep dc spsOk s.demux i).1.v.vmeta s.flv (demuxStep dc spsOk s.demux i).2.1).2 := rfl
 
 theorem step_ts (dc : Depack.Cfg) (cfg : Cfg) (spsOk : Bytes → Bool) (ascOk hasTs : Bool) (s : St) (i : In) :
@@ -250,7 +250,7 @@ theorem step_up (dc : Depack.Cfg) (hdc : SafeCfg dc) (cfg : Cfg) (hc : cfg.tsAac
   have hv := demuxStep_out dc spsOk s.demux i
   have hal := demuxStep_alive dc hdc spsOk s.demux i
   obtain ⟨hco, hha, hre, hme⟩ := demuxStep_up dc spsOk m0 hm s.demux i hu.dalive hu.codec hu.ready hu.vmeta
-  have hflv := feedFlv_up cfg (demuxStep dc spsOk s.demux i).1.codec (demuxStep dc spsOk s.demux i).1.hasAac
+  have hflv := feedFlv_up cfg spsOk (demuxStep dc spsOk s.demux i).1.codec (demuxStep dc spsOk s.demux i).1.hasAac
     (demuxStep dc spsOk s.demux i).1.v.vmeta _ s.flv hu.falive hu.fdone hv
   have hts := feedTs_up cfg hc ascOk (demuxStep dc spsOk s.demux i).1.v.vmeta _ s.ts hu.talive hv
   refine ⟨⟨?_, ?_, ?_, ?_, ?_, ?_, ?_⟩, rfl, rfl, ?_, ?_⟩
